@@ -1,9 +1,11 @@
 package main
 
 import (
+	"bytes"
 	"fmt"
 	"os"
 	"strings"
+	"sync"
 
 	"github.com/biogo/biogo/align/pals"
 	"github.com/biogo/biogo/align/pals/dp"
@@ -27,6 +29,7 @@ type c15Plant struct {
 	Short   bool   `json:"just_above_minimum_judged_in_aggregate"`
 	Tandem  bool   `json:"tandem_copy_close_to_the_main_diagonal"`
 	Block   string `json:"single_block_difference,omitempty"` // 5 substitutions in a row, or a 5-letter insertion or deletion
+	Arm     string `json:"arm_of_a_colinear_pair,omitempty"`  // what lies between this repeat and its neighbour on the same diagonal: n_gap (run of N in the query) or unrelated_gap
 }
 
 type c15Plan struct {
@@ -35,6 +38,9 @@ type c15Plan struct {
 	Self      bool    `json:"self_comparison"`
 	TLen      int     `json:"target_length"`
 	QLen      int     `json:"query_length"`
+	Lower     bool    `json:"lower_case_letters,omitempty"`
+	TOffset   int     `json:"target_offset,omitempty"` // Offset of the sequences handed to PALS (self comparison: one sequence, one offset)
+	QOffset   int     `json:"query_offset,omitempty"`
 	Plants    []c15Plant
 }
 
@@ -49,6 +55,8 @@ func c15RevComp(b []byte) []byte {
 			d = 'G'
 		case 'G':
 			d = 'C'
+		case 'N':
+			d = 'N'
 		default:
 			d = 'A'
 		}
@@ -89,7 +97,9 @@ func init() {
 		Level: "exploration",
 		Rule: "one PALS run (forward and complement-strand searches) per case: random ACGT backgrounds of 2..20 kb, self and non-self, (minimum hit length, minimum identity) from {50,100,200,400}x{0.8,0.85,0.9,0.94} as accepted by Optimise, 1..3 planted repeats of length 1.2..4 x the minimum hit length, exact or with substitutions (in half of the self comparisons also two forward copies 0..11 letters apart, i.e. just above the zone excluded around the main diagonal) " +
 			"(and 1..2 short indels in thorough) at an error rate of at most min(1-minId-0.04, 0.03), forward and reverse-complemented. Soundness of every hit: inside both sequences, both extents >= minimum hit length, Error <= 1-minId, Score <= optimum of an independent global alignment (+1/-3/-3) of the two regions, edit distance <= 4*Error*lenB/3. " +
-			"Recall: some hit on the right strand covers >= 80% of the planted copy in both sequences; self-comparison never reports the trivial diagonal. Non-trivial = >=1 hit reported; distinct = plan + sequence hash",
+			"Recall: some hit on the right strand covers >= 80% of the planted copy in both sequences; self-comparison never reports the trivial diagonal. " +
+			"In a third of the cases also two repeats 8..90 letters apart on one diagonal (between them unrelated letters or, non-self, a run of N in the query); an eighth of the cases in lower case, a fifth with sequence Offsets above both lengths (hit coordinates taken from 0 or from the Offset); " +
+			"routes to the hits: Align, AlignFrom (half of them on the slice Trapezoids() returned before the other strand was searched), a reused dp.Aligner, aligners set up with Share (half of them followed by 3..6 sharing aligners run at the same time, each compared with its own answer when run alone). Non-trivial = >=1 hit reported; distinct = plan + sequence hash",
 		Batches: func(t string) int {
 			if t == "thorough" {
 				return 16
@@ -100,7 +110,8 @@ func init() {
 		Case:        c15Case,
 		MinDistinct: func(t string) int { return 150 },
 		Floors: func(string) map[string]int64 {
-			return map[string]int64{"pals_runs": 200, "hits_checked": 250, "planted_repeats": 250, "planted_reverse_strand": 80, "planted_recovered": 250, "self_comparison_runs": 30, "hits_with_errors": 60, "near_minimum_plants": 60, "short_repeats_with_end_substitutions": 40, "tandem_self_repeats": 20, "plants_with_one_block_difference": 60, "runs_through_alignfrom": 40, "runs_through_a_reused_dp_aligner": 40}
+			return map[string]int64{"pals_runs": 200, "hits_checked": 250, "planted_repeats": 250, "planted_reverse_strand": 80, "planted_recovered": 250, "self_comparison_runs": 30, "hits_with_errors": 60, "near_minimum_plants": 60, "short_repeats_with_end_substitutions": 40, "tandem_self_repeats": 20, "plants_with_one_block_difference": 60, "runs_through_alignfrom": 40, "runs_through_a_reused_dp_aligner": 40,
+				"colinear_pairs_with_n_gap": 20, "colinear_pairs_with_unrelated_gap": 40, "runs_in_lower_case": 25, "runs_with_sequence_offsets": 40, "alignfrom_runs_on_the_slice_trapezoids_returned": 20, "groups_of_sharing_aligners_run_together": 10}
 		},
 		Aggregate: func(tier string, c map[string]int64) []obs.Violation {
 			tried := c["short_repeats_recovered"] + c["short_repeats_missed"]
@@ -115,9 +126,18 @@ func init() {
 					out = append(out, obs.Violation{Class: "block-difference-recall", Brief: fmt.Sprintf("%d of %d planted repeats carrying one block of five differences (%s; repeat 1.3..1.9 x the minimum hit length) were not recovered; on the pinned tree the rate is below 1%%", bmissed, btried, kind)})
 				}
 			}
+			for _, kind := range []string{"n_gap", "unrelated_gap"} {
+				atried, amissed := c["arms_next_to_"+kind+"_recovered"]+c["arms_next_to_"+kind+"_missed"], c["arms_next_to_"+kind+"_missed"]
+				if amissed >= 6 && amissed*20 > atried {
+					out = append(out, obs.Violation{Class: "colinear-pair-recall", Brief: fmt.Sprintf("%d of %d planted repeats that have a second repeat 8..90 letters further along the same diagonal (between them: %s; each repeat 1.3..2 x the minimum hit length) were not recovered; on the pinned tree the rate is below 0.1%%", amissed, atried, map[string]string{"n_gap": "a run of N in the query", "unrelated_gap": "unrelated letters"}[kind])})
+				}
+			}
 			return out
 		},
-		Assumptions: []string{"a single block of five differences costs exactly what the aligner's drop-off tolerates, so repeats carrying one (and too short for either arm to make a hit alone) sit on the algorithm's boundary: the unchanged pipeline loses about 1 in 200 of them; they are judged as a population, per kind of block: a run is a violation when at least 6 and more than 5% of one kind are missed",
+		Assumptions: []string{"two repeats a few letters apart on one diagonal end up in one trapezoid; whether the second is reported depends on the aligner's recursion into the rest of the trapezoid (unrelated letters between them: the unchanged pipeline loses about 1 in 2500 at 15..16 letters) or on the merger splitting the trapezoid (run of N in the query, which the statement's 'otherwise random sequences' does not strictly cover): both kinds are judged as populations, a run is a violation when at least 6 and more than 5% of one kind are missed. Runs of N in the target or away from the repeats are not generated (the unchanged pipeline loses about 1.5% of intact repeats next to them at word sizes 5..6)",
+			"aligners set up with Share hold only the index and the two parameter structs in common, none of which a search writes: they are taken to be usable at the same time from one goroutine each, as a driver with one index and many queries runs them",
+			"the statement does not say whether hit coordinates count from the first letter or from the sequence's Offset: both are accepted (the pinned tree counts from the first letter); lower-case letters are the same letters under alphabet.DNA, but only sequences that are in one case throughout are generated (a lower-case copy of an upper-case repeat is not found by the unchanged pipeline)",
+			"a single block of five differences costs exactly what the aligner's drop-off tolerates, so repeats carrying one (and too short for either arm to make a hit alone) sit on the algorithm's boundary: the unchanged pipeline loses about 1 in 200 of them; they are judged as a population, per kind of block: a run is a violation when at least 6 and more than 5% of one kind are missed",
 			"repeats only 2..12 letters longer than the minimum hit length are not reliably recovered even by the unchanged pipeline (about 1 in 700 missed): they are judged as a population - a run is a violation when at least 6 and more than 10% of them are missed", "planted copies do not overlap each other or (in self comparison) their source", "index memory is capped at 48 MB so that Optimise chooses a word size the sandbox can index",
 			"'comfortably above the threshold' is taken as an error rate of at most min(1-minId-0.04, 0.03) (two substitutions for the short repeats just above the minimum length, where 1-minId-0.04 allows them); 'most of the planted copy' as 80%"},
 	})
@@ -174,6 +194,55 @@ func c15Case(r *obs.Run, i int) {
 		usedQ = append(usedQ, iv{a0, b0 + L})
 		pl.Plants = append(pl.Plants, p)
 		r.Count("tandem_self_repeats", 1)
+	}
+	// two repeats in a row on one diagonal: one source window of l1+d+l2 letters (arms of 1.3..2 x the minimum hit length)
+	// whose d middle letters are, in the copy, either unrelated random letters (one trapezoid covers both arms, so one of
+	// them can only come from the aligner's recursion into the rest of the trapezoid) or, non-self only, a run of N
+	// in the query (the merger has to split the trapezoid at the run). Each arm is a planted repeat in its own right;
+	// both kinds are judged as populations (see the assumptions)
+	if rng.Intn(3) == 0 {
+		kind := "unrelated_gap"
+		d := 8 + rng.Intn(53)
+		if !pl.Self && rng.Intn(2) == 0 {
+			kind = "n_gap"
+			d = 8 + rng.Intn(83)
+		}
+		l1 := int(float64(pl.MinHitLen) * (1.3 + 0.7*rng.Float64()))
+		l2 := int(float64(pl.MinHitLen) * (1.3 + 0.7*rng.Float64()))
+		L := l1 + d + l2
+		ok := false
+		var a0, b0 int
+		for try := 0; try < 50 && !ok && L+40 <= pl.TLen/3 && L+40 <= pl.QLen/3; try++ {
+			a0 = rng.Intn(pl.TLen - L)
+			b0 = rng.Intn(pl.QLen - L - 8)
+			ok = free(usedT, a0, a0+L) && free(usedQ, b0, b0+L)
+			if pl.Self {
+				ok = ok && free(usedT, b0, b0+L) && free(usedQ, a0, a0+L) && (b0 > a0+L+20 || a0 > b0+L+28)
+			}
+		}
+		if ok {
+			w := append([]byte(nil), T[a0:a0+L]...)
+			for x := l1; x < l1+d; x++ {
+				w[x] = 'N'
+				if kind == "unrelated_gap" {
+					w[x] = "ACGT"[rng.Intn(4)]
+				}
+			}
+			rev := rng.Intn(2) == 0
+			if rev {
+				w = c15RevComp(w)
+			}
+			copy(Q[b0:], w)
+			p1 := c15Plant{A0: a0, A1: a0 + l1, B0: b0, B1: b0 + l1, Reverse: rev, Arm: kind}
+			p2 := c15Plant{A0: a0 + l1 + d, A1: a0 + L, B0: b0 + l1 + d, B1: b0 + L, Reverse: rev, Arm: kind}
+			if rev {
+				p1.B0, p1.B1, p2.B0, p2.B1 = b0+d+l2, b0+L, b0, b0+l2
+			}
+			usedT = append(usedT, iv{a0, a0 + L})
+			usedQ = append(usedQ, iv{b0, b0 + L})
+			pl.Plants = append(pl.Plants, p1, p2)
+			r.Count("colinear_pairs_with_"+kind, 1)
+		}
 	}
 	for k := 0; k < nplant; k++ {
 		L := int(float64(pl.MinHitLen) * (1.2 + 2.8*rng.Float64()))
@@ -343,6 +412,17 @@ func c15Case(r *obs.Run, i int) {
 			break
 		}
 	}
+	// the same letters in lower case (the DNA alphabet is declared case-insensitive), and sequences whose Offset is not 0
+	// (larger than either length, so that a coordinate tells by its size whether it counts from the offset)
+	pl.Lower = rng.Intn(8) == 0
+	if rng.Intn(5) == 0 {
+		pl.TOffset = maxInt(pl.TLen, pl.QLen) + 1 + rng.Intn(50000)
+		pl.QOffset = maxInt(pl.TLen, pl.QLen) + 1 + rng.Intn(50000)
+		if pl.Self {
+			pl.QOffset = pl.TOffset
+		}
+		r.Count("runs_with_sequence_offsets", 1)
+	}
 	scratch := c11Scratch(r)
 	defer os.RemoveAll(scratch)
 	r.Crumb(fmt.Sprintf("%+v T=%s Q=%s", pl, T, Q))
@@ -359,10 +439,21 @@ func c15Case(r *obs.Run, i int) {
 			fail("panic", fmt.Sprintf("panic: %v", e))
 		}
 	}()
-	ts := linear.NewSeq("t", alphabet.BytesToLetters(append([]byte(nil), T...)), alphabet.DNA)
+	letters := func(b []byte) alphabet.Letters {
+		if pl.Lower {
+			return alphabet.BytesToLetters(bytes.ToLower(b))
+		}
+		return alphabet.BytesToLetters(append([]byte(nil), b...))
+	}
+	ts := linear.NewSeq("t", letters(T), alphabet.DNA)
+	ts.Offset = pl.TOffset
 	qs := ts
 	if !pl.Self {
-		qs = linear.NewSeq("q", alphabet.BytesToLetters(append([]byte(nil), Q...)), alphabet.DNA)
+		qs = linear.NewSeq("q", letters(Q), alphabet.DNA)
+		qs.Offset = pl.QOffset
+	}
+	if pl.Lower {
+		r.Count("runs_in_lower_case", 1)
 	}
 	m, err := morass.New(filter.Hit{}, "c15", scratch, 1<<14, false)
 	if err != nil {
@@ -386,6 +477,7 @@ func c15Case(r *obs.Run, i int) {
 	}
 	var hits [2]dp.Hits
 	var traps [2]filter.Trapezoids
+	var held filter.Trapezoids // what Trapezoids() returned after the forward search, kept as it is while the aligner goes on
 	for strand := 0; strand < 2; strand++ {
 		hits[strand], err = pa.Align(strand == 1)
 		if err != nil {
@@ -393,6 +485,9 @@ func c15Case(r *obs.Run, i int) {
 			return
 		}
 		traps[strand] = append(filter.Trapezoids(nil), pa.Trapezoids()...)
+		if strand == 0 {
+			held = pa.Trapezoids()
+		}
 	}
 	// other ways to the same hits: the trapezoids of each search, saved by the caller, handed back later to AlignFrom (by
 	// then the aligner last saw the other strand's), or given to one dp.Aligner that is then used again while the caller
@@ -404,6 +499,11 @@ func c15Case(r *obs.Run, i int) {
 	w["route_to_the_hits"] = route
 	switch route {
 	case "AlignFrom":
+		if rng.Intn(2) == 0 { // the caller kept the slice Trapezoids() gave it instead of a copy
+			traps[0] = held
+			w["route_to_the_hits"] = "AlignFrom, forward trapezoids as returned by Trapezoids() before the complement search"
+			r.Count("alignfrom_runs_on_the_slice_trapezoids_returned", 1)
+		}
 		for _, strand := range []int{0, 1} {
 			hits[strand], err = pa.AlignFrom(traps[strand], strand == 1)
 			if err != nil {
@@ -442,6 +542,22 @@ func c15Case(r *obs.Run, i int) {
 			}
 		}
 		r.Count("runs_through_share", 1)
+		// several sharing aligners at work at the same time, one goroutine per query (one index, many queries): each must
+		// answer what it answers when it runs alone
+		if rng.Intn(2) == 0 {
+			n := 3 + rng.Intn(4)
+			what, err := c15Together(r, n, ts, qs, pa, T, scratch, &mem)
+			if err != nil {
+				r.Inconclusive("morass.New: " + err.Error())
+				return
+			}
+			if what != "" {
+				fail("sharing-aligners-interfere", what)
+				return
+			}
+			r.Count("groups_of_sharing_aligners_run_together", 1)
+			r.Count("sharing_aligners_run_together", int64(n))
+		}
 	case "dp.Aligner":
 		al := dp.NewAligner(ts, qs, pa.FilterParams.WordSize, pa.DPParams.MinHitLength, pa.DPParams.MinId)
 		al.Costs = &pa.Costs
@@ -455,6 +571,22 @@ func c15Case(r *obs.Run, i int) {
 	r.Count("pals_runs", 1)
 	if pl.Self {
 		r.Count("self_comparison_runs", 1)
+	}
+	if pl.TOffset != 0 {
+		// the statement does not say whether coordinates count from the start of the letters or from the sequence's Offset:
+		// either is taken (the offsets exceed both lengths, so the two readings cannot be confused)
+		for strand := range hits {
+			for x := range hits[strand] {
+				h := &hits[strand][x]
+				if h.Abpos >= pl.TOffset {
+					h.Abpos, h.Aepos = h.Abpos-pl.TOffset, h.Aepos-pl.TOffset
+					r.Count("hit_coordinates_counted_from_the_offset", 1)
+				}
+				if h.Bbpos >= pl.QOffset {
+					h.Bbpos, h.Bepos = h.Bbpos-pl.QOffset, h.Bepos-pl.QOffset
+				}
+			}
+		}
 	}
 	RC := c15RevComp(Q)
 	nh := 0
@@ -567,6 +699,14 @@ func c15Case(r *obs.Run, i int) {
 			}
 			continue
 		}
+		if p.Arm != "" { // likewise
+			if found {
+				r.Count("arms_next_to_"+p.Arm+"_recovered", 1)
+			} else {
+				r.Count("arms_next_to_"+p.Arm+"_missed", 1)
+			}
+			continue
+		}
 		if !found {
 			w["hits_forward"] = fmt.Sprint(hits[0])
 			w["hits_complement"] = fmt.Sprint(hits[1])
@@ -583,6 +723,88 @@ func c15Case(r *obs.Run, i int) {
 	if r.WantSample() {
 		r.Sample(map[string]interface{}{"plan": pl, "filter_params": *pa.FilterParams, "hits_forward": fmt.Sprint(hits[0]), "hits_complement": fmt.Sprint(hits[1])})
 	}
+}
+
+// c15Together sets up n aligners that share pa's index and settings (the first on the query qs, the others on queries
+// of their own, each with a stretch of the target in it), lets each search both strands alone, then all of them at the
+// same time on one goroutine each, twice over. It returns a description of the first answer that differs from the one
+// given alone (or of the error or panic), "" if there is none. Nothing of r is touched off the calling goroutine.
+func c15Together(r *obs.Run, n int, ts, qs *linear.Seq, pa *pals.PALS, T []byte, scratch string, mem *uintptr) (string, error) {
+	rng := r.Rng
+	type job struct {
+		p     *pals.PALS
+		alone [2]dp.Hits
+		what  string
+	}
+	jobs := make([]*job, n)
+	for j := range jobs {
+		q := qs
+		if j > 0 {
+			b := c14Rand(rng, 1500+rng.Intn(2500))
+			l := 150 + rng.Intn(450)
+			copy(b[rng.Intn(len(b)-l):], T[rng.Intn(len(T)-l):][:l])
+			q = linear.NewSeq(fmt.Sprintf("q%d", j), alphabet.BytesToLetters(b), alphabet.DNA)
+		}
+		m, err := morass.New(filter.Hit{}, fmt.Sprintf("c15s%d", j), scratch, 1<<14, false)
+		if err != nil {
+			return "", err
+		}
+		jb := &job{p: pals.New(ts, q, false, m, 0, mem, nil)}
+		defer jb.p.CleanUp()
+		jb.p.Share(pa)
+		for strand := 0; strand < 2; strand++ {
+			if jb.alone[strand], err = jb.p.Align(strand == 1); err != nil {
+				return fmt.Sprintf("Align(complement=%v) of sharing aligner %d of %d, run alone: %v", strand == 1, j, n, err), nil
+			}
+		}
+		jobs[j] = jb
+	}
+	start := make(chan struct{})
+	var wg sync.WaitGroup
+	for j, jb := range jobs {
+		wg.Add(1)
+		go func(j int, jb *job) {
+			defer wg.Done()
+			defer func() {
+				if e := recover(); e != nil {
+					jb.what = fmt.Sprintf("sharing aligner %d of %d, all at work at the same time: panic: %v", j, n, e)
+				}
+			}()
+			<-start
+			for rep := 0; rep < 2; rep++ {
+				for strand := 0; strand < 2; strand++ {
+					h, err := jb.p.Align(strand == 1)
+					if err != nil {
+						jb.what = fmt.Sprintf("Align(complement=%v) of sharing aligner %d of %d, all at work at the same time: %v", strand == 1, j, n, err)
+						return
+					}
+					if !c15SameHits(h, jb.alone[strand]) && jb.what == "" {
+						jb.what = fmt.Sprintf("Align(complement=%v) of sharing aligner %d of %d gives %v while the others are at work, but %v when it runs alone", strand == 1, j, n, h, jb.alone[strand])
+					}
+				}
+			}
+		}(j, jb)
+	}
+	close(start)
+	wg.Wait()
+	for _, jb := range jobs {
+		if jb.what != "" {
+			return jb.what, nil
+		}
+	}
+	return "", nil
+}
+
+func c15SameHits(a, b dp.Hits) bool {
+	if len(a) != len(b) {
+		return false
+	}
+	for i := range a {
+		if a[i] != b[i] {
+			return false
+		}
+	}
+	return true
 }
 
 func minF(a, b float64) float64 {
